@@ -88,6 +88,12 @@ class Mapper:
             props = t["value"].get("properties", [])
             if not props:
                 return "LSPObject"
+            # the plugin invents one record per occurrence; any record with exactly the literal's members will do
+            g = (got or "").rstrip("?")
+            d = self.decls.get(g)
+            if d is not None and g not in self.mm.structures and d["kind"] == "record" and \
+                    sorted(x for x in (data_member_name(m["attrs"]) for m in d["members"]) if x is not None) == sorted(p["name"] for p in props):
+                return g
             n = self.class_by_members([p["name"] for p in props])
             return n or "<no record with members %s>" % sorted(p["name"] for p in props)
         return "<%s>" % k
